@@ -223,6 +223,7 @@ def _run_case(case, seed, keys):
 
     nchecks = 0
     pending = None
+    observed_too_long = [0]      # over-long component specs accepted by the library (observation only)
     TR.TABresult.to_grid = to_grid_spy
     try:
         with G.case_tmpdir() as tmp:
@@ -353,6 +354,12 @@ def _run_case(case, seed, keys):
                                     val = call()
                                 except Exception:
                                     continue
+                                # An over-long specification ('xyz' on a rank-2 tensor) is not a component at all, and the
+                                # statement only speaks about valid components: that the library returns some array
+                                # for it instead of raising is recorded as an observation, not judged (DESIGN.md §11).
+                                if kind == "too_long":
+                                    observed_too_long[0] += 1
+                                    continue
                                 # not fatal for the rest of the case: remembered, reported at the end unless a
                                 # different failure (wrong slot / wrong value ...) shows up first
                                 if pending is None:
@@ -372,10 +379,11 @@ def _run_case(case, seed, keys):
                         return _fail("fermiSurfer:order", f"{what}: header {g} {nbf}", keys)
     finally:
         TR.TABresult.to_grid = orig_to_grid
+    obs = {"runs": len(facts) * len(libs), "checks": nchecks, "nk": nk, "quantities": len(names)}
     if pending is not None:
+        pending["obs"] = obs  # every other check of the case was completed and held
         return pending
-    return {"ok": True, "nontrivial": keys,
-            "obs": {"runs": len(facts) * len(libs), "checks": nchecks, "nk": nk, "quantities": len(names)}}
+    return {"ok": True, "nontrivial": keys, "obs": obs}
 
 
 def finish(tier, cases, results):
